@@ -238,6 +238,12 @@ func doProgressive(seed uint64, n int, repo string) {
 		f := mp4.NewFile()
 		init := mp4.CreateEmptyInit()
 		init.AddEmptyTrack(uint32(r.Pick(90000, 48000)), []string{"video", "audio"}[r.Intn(2)], "und")
+		// a progressive moov: samples described in stts / stco (File.AddChild takes a moov without stts entries for an init segment)
+		stbl := init.Moov.Trak.Mdia.Minf.Stbl
+		stbl.Stts.SampleCount, stbl.Stts.SampleTimeDelta = []uint32{uint32(r.Range(1, 9))}, []uint32{1000}
+		if stbl.Stco != nil {
+			stbl.Stco.ChunkOffset = []uint32{uint32(r.Range(100, 5000))}
+		}
 		order := r.Intn(3)
 		how := []string{"ftyp moov mdat", "ftyp mdat moov", "ftyp free moov mdat mdat"}[order]
 		mk := func() *mp4.MdatBox {
